@@ -892,7 +892,13 @@ def lf8(F, R):
     R.require(okr, fn, "else-replacement", "an unpaired surrogate that is not the first item must be replaced by U+FFFD", fn.loc(h))
     # emission order
     revs = [tstr(fn.call_term(t, b)) for b, t in fn.calls() if (callee_of(t) or "").endswith("Iterator::rev")]
-    R.require(len(revs) == 2 and any("char_vec" in r or "deref" in r for r in revs) and any("bytes(" in r for r in revs), fn, "back-to-front", "chars and their UTF-8 bytes must both be emitted back to front (the buffer is filled from its end); rev() sites: %s" % [r[:60] for r in revs], fn.loc(0))
+    # the bytes of one character either go in back to front one by one, or as one block into the window below `free`
+    from .rules_lfn import window_store
+    win = window_store(fn)
+    chars_rev = any("char_vec" in r or "deref" in r for r in revs)
+    bytewise = len(revs) == 2 and chars_rev and any("bytes(" in r for r in revs)
+    blockwise = win is not None and not win["problems"] and len(revs) == 1 and chars_rev
+    R.require(bytewise or blockwise, fn, "back-to-front", "chars and their UTF-8 bytes must both be emitted back to front (the buffer is filled from its end); rev() sites: %s" % [r[:60] for r in revs], fn.loc(0))
 
 
 @rule("CD5", ["C18", "C06"], floor=4,
